@@ -49,7 +49,7 @@ def gen_cases(tier, seed):
     for k in range(n):
         cases.append({"kind": "roundtrip", "npts": [rng.randint(6, 8) for _ in range(4)], "P1": rng.choice(Ps), "P2": rng.choice(Ps),
                       "layout": ["flux_surface", "v_parallel", "poloidal"][k % 3], "seed": rng.randrange(1 << 30), "cost": 100})
-    for k in range(12 if tier == "quick" else 900):
+    for k in range(16 if tier == "quick" else 900):
         cases.append({"kind": "constants", "mode": ["defaults", "perturbed", "perturbed-rp", "shuffled", "symbolic", "symbolic-long", "partial", "partial"][k % 8], "seed": rng.randrange(1 << 30), "cost": 2})
     for k in range(6 if tier == "quick" else 150):
         times = sorted(set(rng.choice([0, 2, 8, 10, 14, 100, 250, 1000, 4096, 99998, 100000]) for _ in range(rng.randint(2, 5))))
@@ -315,30 +315,31 @@ def _constants(case, tmp):
         # base constants with all 17 significant digits, referenced by expressions (also through other expressions);
         # reference: the same expressions evaluated by Python on the float values themselves
         from math import pi
-        b = {"R0": rng.uniform(100, 300), "rMin": rng.uniform(0.1, 1.0), "rMax": rng.uniform(5, 20), "vMax": rng.uniform(3, 9), "deltaRTi": rng.uniform(0.5, 3.0),
-             "kTi": rng.randint(1, 28) / 29.0, "deltaRN0": rng.uniform(1.0, 4.0) / 3.0}
-        exprs = {"vMin": ("-vMax", -b["vMax"]), "zMax": ("2*pi*R0", 2 * pi * b["R0"]), "deltaRTe": ("deltaRTi/3", b["deltaRTi"] / 3), "kTe": ("kTi*7", b["kTi"] * 7),
-                 "deltaR": ("4.0*deltaRN0/deltaRTi", 4.0 * b["deltaRN0"] / b["deltaRTi"]), "kN0": ("kTe/(R0-rMax)", b["kTi"] * 7 / (b["R0"] - b["rMax"]))}
-        if case["seed"] % 2:
-            # the outer radius given through an expression, together with an explicit peak radius that is NOT the mid radius
-            width = rng.randint(5, 14) + 0.5
-            exprs["rMax"] = ("rMin+%r" % width, b["rMin"] + width)
-            del b["rMax"]
-            b["rp"] = b["rMin"] + rng.uniform(0.2, 0.4) * width
-            exprs["kN0"] = ("kTe/(R0-rMin)", b["kTi"] * 7 / (b["R0"] - b["rMin"]))
-        d = dict(b, npts=[16, 16, 16, 16], dt=2, **{k: v[0] for k, v in exprs.items()})
-        keys = list(d)
-        for rep in range(4):
-            rng.shuffle(keys)
-            p = os.path.join(tmp, "syml%d.json" % rep)
-            with open(p, "w") as f:
-                json.dump({k: d[k] for k in keys}, f)
-            r = _public(cm.get_constants(p))
-            for k, v in list(b.items()) + [(k, v[1]) for k, v in exprs.items()]:
-                ev["constants_attributes_compared"] += 1
-                if not abs(r[k] - v) <= 1e-14 * abs(v):
-                    return result(VIOL, cls=["constants/symbolic-long"], events=ev, key="C18:constants/symbolic-expression" if k in exprs else "C18:constants/%s" % k,
-                                  what="constant %s%s evaluated to %r, expected %r (relative difference %.3g)" % (k, " = '%s'" % exprs[k][0] if k in exprs else "", r[k], v, abs(r[k] - v) / abs(v)), witness={"case": case, "file": d})
+        for variant in (case["seed"] % 2, 1 - case["seed"] % 2):      # both forms of the file in every case
+            b = {"R0": rng.uniform(100, 300), "rMin": rng.uniform(0.1, 1.0), "rMax": rng.uniform(5, 20), "vMax": rng.uniform(3, 9), "deltaRTi": rng.uniform(0.5, 3.0),
+                 "kTi": rng.randint(1, 28) / 29.0, "deltaRN0": rng.uniform(1.0, 4.0) / 3.0}
+            exprs = {"vMin": ("-vMax", -b["vMax"]), "zMax": ("2*pi*R0", 2 * pi * b["R0"]), "deltaRTe": ("deltaRTi/3", b["deltaRTi"] / 3), "kTe": ("kTi*7", b["kTi"] * 7),
+                     "deltaR": ("4.0*deltaRN0/deltaRTi", 4.0 * b["deltaRN0"] / b["deltaRTi"]), "kN0": ("kTe/(R0-rMax)", b["kTi"] * 7 / (b["R0"] - b["rMax"]))}
+            if variant:
+                # the outer radius given through an expression, together with an explicit peak radius that is NOT the mid radius
+                width = rng.randint(5, 14) + 0.5
+                exprs["rMax"] = ("rMin+%r" % width, b["rMin"] + width)
+                del b["rMax"]
+                b["rp"] = b["rMin"] + rng.uniform(0.2, 0.4) * width
+                exprs["kN0"] = ("kTe/(R0-rMin)", b["kTi"] * 7 / (b["R0"] - b["rMin"]))
+            d = dict(b, npts=[16, 16, 16, 16], dt=2, **{k: v[0] for k, v in exprs.items()})
+            keys = list(d)
+            for rep in range(4):
+                rng.shuffle(keys)
+                p = os.path.join(tmp, "syml%d.json" % rep)
+                with open(p, "w") as f:
+                    json.dump({k: d[k] for k in keys}, f)
+                r = _public(cm.get_constants(p))
+                for k, v in list(b.items()) + [(k, v[1]) for k, v in exprs.items()]:
+                    ev["constants_attributes_compared"] += 1
+                    if not abs(r[k] - v) <= 1e-14 * abs(v):
+                        return result(VIOL, cls=["constants/symbolic-long"], events=ev, key="C18:constants/symbolic-expression" if k in exprs else "C18:constants/%s" % k,
+                                      what="constant %s%s evaluated to %r, expected %r (relative difference %.3g)" % (k, " = '%s'" % exprs[k][0] if k in exprs else "", r[k], v, abs(r[k] - v) / abs(v)), witness={"case": case, "file": d})
         return result(HELD, cls=["constants/symbolic-long"], events=ev, n_eval=ev["constants_attributes_compared"])
     if mode == "symbolic":
         d = {"R0": 200.0, "rMin": 0.5, "rMax": 12.5, "vMax": 6.0, "vMin": "-vMax", "zMax": "2*pi*R0", "deltaRTi": 1.5, "deltaRTe": "deltaRTi", "deltaRN0": "2.0*deltaRTe",
